@@ -286,9 +286,11 @@ impl Pattern {
                     .set_extended_globbing(self.enable_extended_globbing)
                     .set_case_insensitive(self.case_insensitive);
 
+                // N.B. Skip over empty pieces (e.g., from `''.*` or `"$empty".*`).
                 let subpattern_starts_with_dot = subpattern
                     .pieces
-                    .first()
+                    .iter()
+                    .find(|piece| !piece.as_str().is_empty())
                     .is_some_and(|piece| piece.as_str().starts_with('.'));
 
                 let allow_dot_files = !options.require_dot_in_pattern_to_match_dot_files
